@@ -249,8 +249,16 @@ def localTextViol (s : Str) (n : Node) : List Viol :=
     else if tc == op ++ ['\\'] && (s.drop n.pos.2 == [] || s.drop n.pos.2 == ['\n']) then
       ["operator-span-includes-final-backslash"]
     else ["operator-text"]
-  | .reservedword _ w => bad (tc == w) "reservedword-text"
-  | .pipe _ w => bad (tc == w) "pipe-text"
+  | .reservedword _ w =>
+    if tc == w then []
+    else if tc == w ++ ['\\'] && (s.drop n.pos.2 == [] || s.drop n.pos.2 == ['\n']) then
+      ["operator-span-includes-final-backslash"]
+    else ["reservedword-text"]
+  | .pipe _ w =>
+    if tc == w then []
+    else if tc == w ++ ['\\'] && (s.drop n.pos.2 == [] || s.drop n.pos.2 == ['\n']) then
+      ["operator-span-includes-final-backslash"]
+    else ["pipe-text"]
   | .word _ _ ps | .assignment _ _ ps =>
     let masked := maskSpans t n.pos.1 ((ps.filter isSubst).map Node.pos)
     -- a substitution bashlex did not record as a part cannot be stepped over here (that it is
